@@ -176,7 +176,9 @@ def points(tier: str) -> List[dict]:
     for n in (6, 8):
         P.append({"spec": {"model": "sports", "n": n, "sym": True, "limit": 1}, "sat": True})
     P.append({"spec": {"model": "sports", "n": 6, "sym": False, "limit": 3}, "sat": True})
-    P.append({"spec": {"model": "sports", "n": 4, "sym": False}, "count": None, "group": "sports4"})
+    P.append({"spec": {"model": "sports", "n": 4, "sym": False, "brute": True}, "count": "brute"})
+    P.append({"spec": {"model": "sports", "n": 4, "sym": True, "brute": True}, "sat": "brute"})
+    P.append({"spec": {"model": "sports", "n": 2, "sym": False}, "count": 1})
     w, cap, best = KNAPSACK_TEST
     P.append({"spec": {"model": "knapsack", "weights": w, "volumes": w, "capacity": cap, "op": "opt"}, "optimum": best})
     g = lcg(7)
